@@ -30,6 +30,11 @@ var curatedFENs = []string{
 	// en passant captures the checking pawn
 	"8/8/8/2k5/3Pp3/8/8/4K3 b - d3 0 1",
 	"4k3/8/8/3pP3/4K3/8/8/8 w - d6 0 1",
+	// en passant giving discovered check: through the removed pawn (diagonal), by the mover leaving a file, along the rank both pawns leave
+	"6k1/8/8/3pP3/8/8/B7/4K3 w - d6 0 1",
+	"4k3/8/8/3pP3/8/8/8/4RK2 w - d6 0 1",
+	"8/8/8/R2pP2k/8/8/8/4K3 w - d6 0 1",
+	"4k3/8/8/8/r2Pp2K/8/8/8 b - d3 0 1",
 	// en passant on the edge files, both colours
 	"4k3/8/8/pP6/8/8/8/4K3 w - a6 0 1",
 	"4k3/8/8/6Pp/8/8/8/4K3 w - h6 0 1",
